@@ -1,4 +1,5 @@
-(* C02 — lemmas. *)
+(* C02 — lemmas.  Part A: bytes, packing, encodings, LPM keys, ring slots, bitmaps.  The scan refinement is in
+   C02_ProofsScan.v. *)
 From Coq Require Import ZArith List NArith Bool String Lia ZifyBool ZifyN ZifyNat.
 From Dae Require Import C01_Spec C01_Model C02_Spec C02_Model.
 From Dae.gen Require Import C01_Consts C02_Consts.
@@ -6,5 +7,87 @@ Import ListNotations.
 Open Scope N_scope.
 Ltac Zify.zify_post_hook ::= Z.div_mod_to_equations.
 
+(* ---------------------------------------------------------------------------------------------- *)
+(* bytes                                                                                            *)
+(* ---------------------------------------------------------------------------------------------- *)
+
 Lemma le32_bytes_le32 x r : x < 4294967296 -> le32 (le32_bytes x ++ r) 0 = x.
 Proof. intros H. unfold le32, byte_at, le32_bytes. cbn [nth app Nat.add]. lia. Qed.
+
+Lemma le16_bytes_le16 x r : x < 65536 -> le16 (le16_bytes x ++ r) 0 = x.
+Proof. intros H. unfold le16, byte_at, le16_bytes. cbn [nth app Nat.add]. lia. Qed.
+
+Lemma be16_bytes_be16 x r : x < 65536 -> be16 (be16_bytes x ++ r) 0 = x.
+Proof. intros H. unfold be16, byte_at, be16_bytes. cbn [nth app Nat.add]. lia. Qed.
+
+Lemma byte_at_nil k : byte_at [] k = 0.
+Proof. destruct k; reflexivity. Qed.
+
+Lemma byte_at_app2 v l k : byte_at (v ++ l) (List.length v + k) = byte_at l k.
+Proof. unfold byte_at. rewrite app_nth2 by lia. f_equal. lia. Qed.
+
+Lemma byte_at_app1 v l k : (k < List.length v)%nat -> byte_at (v ++ l) k = byte_at v k.
+Proof. intros H. unfold byte_at. now rewrite app_nth1. Qed.
+
+Lemma le32_app2 v l o : le32 (v ++ l) (List.length v + o) = le32 l o.
+Proof. unfold le32. rewrite <- !Nat.add_assoc, !byte_at_app2. reflexivity. Qed.
+
+Lemma be_app l b : be (l ++ [b]) = be l * 256 + b.
+Proof. unfold be. rewrite fold_left_app. reflexivity. Qed.
+
+Lemma be_bytes_be : forall n a, a < 256 ^ N.of_nat n -> be (bytes_be n a) = a.
+Proof.
+  induction n as [|n IH]; intros a Ha.
+  - cbn in *. lia.
+  - cbn [bytes_be]. rewrite be_app, IH.
+    + lia.
+    + rewrite Nat2N.inj_succ, N.pow_succ_r' in Ha. apply N.div_lt_upper_bound; lia.
+Qed.
+
+Lemma length_bytes_be n a : List.length (bytes_be n a) = n.
+Proof. revert a. induction n; intros; cbn [bytes_be]; [reflexivity|]. rewrite app_length, IHn. cbn. lia. Qed.
+
+(* ---------------------------------------------------------------------------------------------- *)
+(* the result word                                                                                  *)
+(* ---------------------------------------------------------------------------------------------- *)
+
+Lemma land_low_shiftl a b k : a < 2 ^ k -> N.land a (N.shiftl b k) = 0.
+Proof.
+  intros Ha. apply N.bits_inj_0. intros n. rewrite N.land_spec.
+  destruct (N.ltb_spec n k) as [Hn|Hn].
+  - rewrite N.shiftl_spec_low by exact Hn. apply andb_false_r.
+  - destruct (N.eq_dec a 0) as [->|Hz]; [now rewrite N.bits_0|].
+    rewrite N.bits_above_log2; [reflexivity|].
+    apply N.lt_le_trans with k; [|exact Hn]. apply N.log2_lt_pow2; lia.
+Qed.
+
+Lemma lor_low_shiftl a b k : a < 2 ^ k -> N.lor a (N.shiftl b k) = a + b * 2 ^ k.
+Proof.
+  intros Ha. rewrite <- N.lxor_lor by (now apply land_low_shiftl).
+  rewrite <- N.add_nocarry_lxor by (now apply land_low_shiftl).
+  now rewrite N.shiftl_mul_pow2.
+Qed.
+
+Lemma pack_add o mark must : o < 256 -> mark < 4294967296 ->
+  pack o mark must = o + mark * 256 + b2n must * 1099511627776.
+Proof.
+  intros Ho Hm. unfold pack.
+  rewrite (lor_low_shiftl o mark 8) by (change (2 ^ 8) with 256; lia).
+  rewrite (lor_low_shiftl _ (b2n must) 40).
+  - reflexivity.
+  - change (2 ^ 8) with 256. change (2 ^ 40) with 1099511627776. lia.
+Qed.
+
+Lemma decode_pack o mark must : o < 256 -> mark < 4294967296 ->
+  decode_word (KWord (pack o mark must)) = Some (o, mark, must).
+Proof.
+  intros Ho Hm. unfold decode_word. rewrite pack_add by assumption.
+  change 0xff with (N.ones 8). change 0xffffffff with (N.ones 32). change 1 with (N.ones 1) at 1.
+  rewrite !N.land_ones, !N.shiftr_div_pow2.
+  change (2 ^ 8) with 256. change (2 ^ 32) with 4294967296. change (2 ^ 40) with 1099511627776. change (2 ^ 1) with 2.
+  assert (Hb : b2n must < 2) by (destruct must; cbn; lia).
+  replace ((o + mark * 256 + b2n must * 1099511627776) mod 256) with o by lia.
+  replace (((o + mark * 256 + b2n must * 1099511627776) / 256) mod 4294967296) with mark by lia.
+  replace (((o + mark * 256 + b2n must * 1099511627776) / 1099511627776) mod 2) with (b2n must) by lia.
+  destruct must; reflexivity.
+Qed.
